@@ -103,10 +103,14 @@ WALL_LIMIT_S = 300.0
 _hangs = 0
 
 
-def guarded_read(fmt, text, nlines):
-    """-> ("ok", value) | ("exc", type name, message) | ("hang", which guard)"""
+def guarded_read(fmt, text, nlines, call=None):
+    """-> ("ok", value) | ("exc", type name, message) | ("hang", which guard).
+    `call`: a thunk to run instead of the string reader (path-taking entry points)"""
     global _hangs
-    reader = ml.Molecule.loads_all_mol2 if fmt == "mol2" else ml.Molecule.loads_all_xyz
+    if call is None:
+        reader = ml.Molecule.loads_all_mol2 if fmt == "mol2" else ml.Molecule.loads_all_xyz
+    else:
+        reader = lambda _t: call()  # noqa: E731
     _Guard.budget = 4 * nlines + 64
     _Guard.used = 0
     _Guard.blown = None
@@ -351,7 +355,7 @@ def judge(ctx, base, doc2, faults, record=True):
         cls, bpos, role = loc
         if cls.startswith("boundary-before-"):
             cls = cls[len("boundary-before-") :]  # the first line lost, whether cut before or inside it
-        r = f"/{role}" if role and f0["kind"] in ("garble-token", "delete-token", "count+1", "count-1") else ""
+        r = f"/{role}" if role and f0["kind"] in ("garble-token", "delete-token", "count+1", "count-1", "retarget") else ""
         w = f"-{f0['where']}" if f0["kind"] == "extra-token" else ""
         return f"{fmt}|{f0['kind']}{w}|{cls}{r}|{bpos}:{symptom}"
 
@@ -532,7 +536,11 @@ class _Quiet:
 
 
 def _dispatch(ctx, part):
-    if part[0] == "single":
+    if part[0] == "bytes":
+        from mc.props import c10_bytes
+
+        c10_bytes.run_bytes(ctx, part[1:])
+    elif part[0] == "single":
         run_single(ctx, part[1:])
     else:
         run_pairs(ctx, part[1:])
@@ -574,6 +582,15 @@ def run(ctx):
         for b in PAIR_BASES:
             nch = 48 if b == "file:propyne.mol2" else 16
             parts += [("pair", b, i, nch) for i in range(nch)]
+    # path-level byte damage (c10_bytes): the same base texts as FILES, read by every path-taking loader
+    from mc.props import c10_bytes
+
+    bbases = c10_bytes.THOROUGH_BASES if ctx.thorough else c10_bytes.QUICK_BASES
+    ctx.bound["byte_damage_base_files"] = list(bbases)
+    ctx.bound["byte_damage"] = "one byte of {FF,80,C5,00,1A,0D} replaced / inserted at every position of the structural tokens of " + ("every line" if ctx.thorough else "the first and last line of every record kind in the first and last block") + ", read through every path-taking entry point"
+    for b in bbases:
+        nch = 12 if ctx.thorough else 6
+        parts += [("bytes", b, i, nch) for i in range(nch)]
     # a few real cases
     b0 = Base(bases[0])
     ctx.note("line_reader_steps_counted_on_first_base_text", b0.steps_counted)  # 0 would mean the step budget is not wired in
@@ -585,6 +602,10 @@ def run(ctx):
 
 def replay(ctx, case):
     install_guards()
+    if case.get("layer") == "bytes":
+        from mc.props import c10_bytes
+
+        return c10_bytes.replay_bytes(ctx, case)
     base = Base(case["base"])
     doc = base.doc
     for f in case["faults"]:
